@@ -162,7 +162,7 @@ def chord_case(draw):
     elif shape == "one_interval":
         est_iv, est_lab = [[t0, T]], [draw(st.sampled_from(CHORD_LABELS))]
     else:
-        kind = draw(st.sampled_from(["same", "same", "longer", "earlier", "shorter", "boundary_on_ref_end", "boundary_on_ref_start"]))
+        kind = draw(st.sampled_from(["same", "same", "longer", "earlier", "shorter", "shorter", "later", "boundary_on_ref_end", "boundary_on_ref_start"]))
         e0, e1 = t0, T
         if kind == "longer":
             e1 = T + 1.5
@@ -170,6 +170,8 @@ def chord_case(draw):
             e0 = t0 - 0.25
         elif kind == "shorter" and (T - t0) * q > 2:
             e1 = T - draw(st.integers(1, int((T - t0) * q) - 1)) / q
+        elif kind == "later" and (T - t0) * q > 2:
+            e0 = t0 + draw(st.integers(1, int((T - t0) * q) - 1)) / q
         elif kind == "boundary_on_ref_end":
             e1 = T + 1.0
         elif kind == "boundary_on_ref_start" and t0 > 0:
@@ -183,6 +185,12 @@ def chord_case(draw):
             est_iv = new
         shape = shape + ":" + kind
         est_lab = draw(st.lists(st.sampled_from(CHORD_LABELS), min_size=len(est_iv), max_size=len(est_iv)))
+        # an estimate that stops early / starts late is padded with 'N'; real estimates often end (begin) with silence themselves,
+        # so the padding meets an 'N' segment and has to merge with it
+        if kind == "shorter" and draw(st.booleans()):
+            est_lab[-1] = "N"
+        if kind == "later" and draw(st.booleans()):
+            est_lab[0] = "N"
     return {"shape": shape, "ref": {"iv": ref_iv, "lab": ref_lab}, "est": {"iv": est_iv, "lab": est_lab}, "kw": {}}
 
 
